@@ -224,6 +224,30 @@ def run(ctx):
             )
     for sec in sorted(set(emitted) - set(consumed)):
         r.note("emitted but never consumed as a constant key: %s" % sec)
+    # every section is emitted *whenever it is present*: the emission of one optional section must not be skipped because
+    # another one is absent.  Optional sections are copied under a per-key guard; a handler that swallows the missing-key
+    # error must therefore enclose exactly one emission - never a loop of emissions or several emissions in a row.
+    stores = []
+    for n in walk_function(gen.node):
+        if isinstance(n, ast.Assign):
+            for t in n.targets:
+                b = t
+                while isinstance(b, ast.Subscript):
+                    b = b.value
+                if isinstance(t, ast.Subscript) and norm(b) == outvar:
+                    stores.append(n)
+    for tr in [x for x in walk_function(gen.node) if isinstance(x, ast.Try)]:
+        swallow = [h for h in tr.handlers if (h.type is None or any(w in norm(h.type) for w in ("KeyError", "Exception", "LookupError"))) and not any(isinstance(x, (ast.Raise, ast.Return)) or (isinstance(x, ast.Call) and callee_text(x) == "sys.exit") for x in ast.walk(h))]
+        if not swallow:
+            continue
+        inside = [st for st in stores if any(st is y for b in tr.body for y in ast.walk(b))]
+        loops = [x for b in tr.body for x in ast.walk(b) if isinstance(x, (ast.For, ast.While)) and any(st is y for st in inside for y in ast.walk(x))]
+        kk = "emission-under-swallowed-error:%s" % norm(tr.body[0])[:50]
+        if loops or len(inside) > 1:
+            r.fail("C17.sections", kk, "%d section emission(s)%s share one try whose handler swallows the missing-key error: the first absent section aborts the rest, so sections that are configured are silently left out of the emitted file" % (len(inside), " in a loop" if loops else ""), gen.loc(tr))
+        elif inside:
+            r.ok("C17.sections", kk, "one emission per swallowing handler")
+    r.ok("C17.sections", "per-key-guards", "%d emission statements; none can be skipped because a different section is absent" % len(stores))
 
     _encoding(r, p)
     return r
@@ -304,6 +328,10 @@ def _encoding(r, p):
 
 
 VARIANTS = [
+    Variant("C17", "optional sections copied inside one try that swallows KeyError", "fire",
+            [("vsg/__main__.py", "        for sKey in [\"file_rules\", \"linesep\", \"severity\", \"skip_phase\"]:\n            if sKey in configuration:\n                dOutputConfiguration[sKey] = configuration[sKey]\n", "        try:\n            for sKey in [\"file_rules\", \"linesep\", \"severity\", \"skip_phase\"]:\n                dOutputConfiguration[sKey] = configuration[sKey]\n        except KeyError:\n            pass\n")], rule="C17.sections"),
+    Variant("C17", "twin: each optional section copied under its own try", "silent",
+            [("vsg/__main__.py", "        for sKey in [\"file_rules\", \"linesep\", \"severity\", \"skip_phase\"]:\n            if sKey in configuration:\n                dOutputConfiguration[sKey] = configuration[sKey]\n", "        for sKey in [\"file_rules\", \"linesep\", \"severity\", \"skip_phase\"]:\n            try:\n                dOutputConfiguration[sKey] = configuration[sKey]\n            except KeyError:\n                pass\n")]),
     Variant("C17", "rule lists a misspelt configuration name", "fire",
             [("vsg/rules/token_case.py", '        self.configuration.append("case")', '        self.configuration.append("cases")')], rule="C17.names"),
     Variant("C17", "option removed from attributes but still listed", "fire",
